@@ -123,6 +123,48 @@ theorem player_pc_is_nextPc (cfg : Cfg) (hfix : cfg.fixed = true) (s s' : State)
     simp [setP, hi, loopHead]
     cases halting <;> cases go <;> cases fail <;> cases t <;> rcases todo with _ | ⟨c, rest⟩ <;> rfl
 
+/-- **`stepPlayer` is the interpretation of the regenerated `run`**: whenever player `i` makes a step
+    (source variant `fixed`), the WHOLE successor state is `stepOfSkel skeleton …`: the effect of the
+    operation the skeleton has at the pending yield point (`applyYP`), then of the local operations the
+    interpreter passes (`applyLocalP`: the `remove` of `thread_finished`, under the manager's lock), then
+    the next yield point as the new program counter. -/
+theorem player_step_is_skeleton (cfg : Cfg) (hfix : cfg.fixed = true) (s s' : State) (i : Nat) (p : Player)
+    (hp : s.players[i]? = some p) (hs : stepPlayer cfg s i = some s') :
+    s' = stepOfSkel skeleton s i p := by
+  unfold stepPlayer at hs
+  rw [hp] at hs
+  rcases p with ⟨pc, audio, cs, all, todo, written, sst, lk, go, halting, fail⟩
+  rcases cfg with ⟨w, f, fl⟩
+  simp only at hfix
+  subst hfix
+  simp only [stepOfSkel, playerGv]
+  generalize s.threads.contains i = t at hs ⊢
+  cases pc <;> simp only [] at hs
+  case new => cases hs
+  case done => cases hs
+  case write =>
+    rcases todo with _ | ⟨c, rest⟩ <;> simp only [] at hs
+    · cases fail <;> simp at hs
+      subst hs
+      cases halting <;> cases go <;> cases t <;> rfl
+    · cases hs
+      cases halting <;> cases go <;> cases fail <;> cases t <;> rfl
+  case goWait =>
+    cases go <;> simp at hs
+    subst hs
+    cases halting <;> cases fail <;> cases t <;> rcases todo with _ | ⟨c, rest⟩ <;> rfl
+  case finAcq =>
+    cases lk <;> simp at hs
+    subst hs
+    cases halting <;> cases go <;> cases fail <;> cases t <;> rcases todo with _ | ⟨c, rest⟩ <;> rfl
+  case tfAcq =>
+    cases hm : s.mlock <;> simp [hm] at hs
+    subst hs
+    cases halting <;> cases go <;> cases fail <;> cases t <;> rcases todo with _ | ⟨c, rest⟩ <;> rfl
+  all_goals
+    cases hs
+    cases halting <;> cases go <;> cases fail <;> cases t <;> rcases todo with _ | ⟨c, rest⟩ <;> rfl
+
 /-- **the successor structure of `stepMain` inside a call is the skeleton's**: at every program
     counter that is a yield point of `play` / `close` / `pause` / `play` / `stop` (`mpcMethod`), a step
     of the control thread goes to the yield point the control-flow interpreter reaches in the
@@ -131,7 +173,7 @@ theorem player_pc_is_nextPc (cfg : Cfg) (hfix : cfg.fixed = true) (s s' : State)
     the model returns to the script (`mpcReturns`); and the call stays in its method until then. -/
 theorem main_pc_is_nextY (cfg : Cfg) (hfix : cfg.fixed = true) (s s' : State) (m : String) (y : Y)
     (hm : mpcMethod s.mpc = some m) (hy : mpcY true s.mpc = some y) (hs : stepMain cfg s = some s') :
-    nextY skeleton m (mainGv cfg s) y = some (if mpcReturns s.mpc then none else mpcY true s'.mpc) ∧
+    (nextY skeleton m (mainGv cfg s) y).map (·.2) = some (if mpcReturns s.mpc then none else mpcY true s'.mpc) ∧
     (mpcReturns s.mpc = false → mpcMethod s'.mpc = some m) := by
   rcases s with ⟨mpc, script, players, threads, mlock, hlock, finished, terminated, perr, log⟩
   rcases cfg with ⟨w, f, fl⟩
